@@ -59,6 +59,19 @@ def systematic():
             t2 = Variant("Trans2", "tuple", [Field(inner)], [TRANSPARENT, ser("ignored")])
             vs = [clone_v(ORD[0]), t, clone_v(ORD[2]), t2, clone_v(ORD[3])]
             items.append(("transparent:" + inner, Item("E", vs, metas=[EM("prefix", "pf.")] if named else [])))
+    # (round 15) GENERIC enums whose parameter only TAGS the inner type (`Id<G0>` is Display / AsRef<str> / From<&str> for every G0), instantiated
+    # with a type that implements none of these: the impls must not ask anything of G0
+    for named in (False, True):
+        for what in ("default", "transparent"):
+            f_ = Field("Id<G0>", "inner" if named else "")
+            if what == "default":
+                vs = [clone_v(ORD[0]), clone_v(ORD[2]), Variant("CatchAll", "named" if named else "tuple", [f_], [DEFAULT])]
+            else:
+                vs = [clone_v(ORD[0]), Variant("Trans", "named" if named else "tuple", [f_], [TRANSPARENT]), clone_v(ORD[3])]
+            gi = Item("E", vs, tparams=1)
+            gi.targ = "NoDef"
+            gi.decl_bounds = ""
+            items.append(("tag-parameter:" + what, gi))
     # default AND transparent (AND to_string) on one variant: transparent decides, the value is forwarded
     for j, ms in enumerate(([DEFAULT, TRANSPARENT], [TRANSPARENT, DEFAULT, tos("other")], [tos("word:{0}"), DEFAULT, TRANSPARENT], [DEFAULT, tos("lit"), TRANSPARENT])):
         for named in (False, True):
